@@ -639,8 +639,38 @@ def _is_empty_container(v):
     return False
 
 
+def rule_cast(ctx):
+    """R8: every value accepted into a field is brought to the field's own data
+    type (what is stored is what the NetCDF variable will hold): each return of
+    FieldMetadata._cast derives from `.astype(self.field_type, …)`."""
+    fs = ctx.prog.module(FS)
+    fi = fs.func('FieldMetadata._cast')
+    rets = [n for n in walk_no_nested(fi.node) if isinstance(n, ast.Return) and n.value is not None]
+    ctx.floor('C03-R8', len(rets), 1, 'returns of _cast')
+    for r in rets:
+        v = r.value
+        ok = False
+        if isinstance(v, ast.Name):
+            defs = [st for t, st, how in stores_to(fi.node) if isinstance(t, ast.Name) and t.id == v.id]
+            srcs = ' '.join(norm(d.value) for d in defs)
+            ok = bool(defs) and 'astype(self.field_type' in srcs and all(
+                'astype(self.field_type' in norm(d.value) or f'{v.id}.item()' in norm(d.value) for d in defs)
+        elif 'astype(self.field_type' in norm(v):
+            ok = True
+        ctx.ob('C03-R8', fi, f'return {norm(v)[:50]}', ok,
+               'value cast to the field type' if ok else
+               ('a value is returned without being cast to the field\'s data type: for a field narrower than a Python '
+                'float (float32, float16) the trajectory keeps the double and reads back a different, rounded value'),
+               line=r.lineno)
+    cc = [c for c in calls_in(fi.node) if call_name(c) == 'np.can_cast']
+    ok = bool(cc) and any(k.arg == 'casting' and norm(k.value) == "'same_kind'" for k in cc[0].keywords)
+    ctx.ob('C03-R8', fi, 'unsafe casts refused', ok, "np.can_cast(…, casting='same_kind') before casting" if ok else
+           'the safety check of the cast changed', nontrivial=False)
+
+
 def run(ctx):
     m = ctx.prog.module(STORE)
+    rule_cast(ctx)
     rule_axis(ctx, m)
     rule_same_file(ctx, m)
     rule_accumulators(ctx, m)
